@@ -137,6 +137,85 @@ fn c05() -> Outcome {
     ok(n)
 }
 
+fn c08() -> Outcome {
+    let mut r = Rng::new(8); let mut n = 0;
+    for _ in 0..budget() {
+        n += 1;
+        let base = rand_instance(&mut r, 3);
+        // (name, mutation, validate must fail, try_from must fail (None = not asserted: known finding D7))
+        let nfaults = if r.chance(1, 5) { 0 } else if r.chance(1, 4) { 2 } else { 1 };
+        let mut i = base.clone(); let mut names = vec![]; let mut vfail = false; let mut tfail: Option<bool> = Some(false);
+        for _ in 0..nfaults {
+            let ncons = i.constraints.len() + i.removed_constraints.len();
+            match r.below(11) {
+                0 => { let a = r.below(i.decision_variables.len()); let b = (a + 1 + r.below(i.decision_variables.len() - 1)) % i.decision_variables.len(); i.decision_variables[a].id = i.decision_variables[b].id; names.push("duplicate decision-variable id"); vfail = true; tfail = Some(true); }
+                1 if ncons >= 2 => {
+                    let ids: Vec<u64> = i.constraints.iter().map(|c| c.id).chain(i.removed_constraints.iter().map(|c| c.constraint.as_ref().unwrap().id)).collect();
+                    let a = r.below(ncons); let b = (a + 1 + r.below(ncons - 1)) % ncons;
+                    let na = i.constraints.len();
+                    if a < na { i.constraints[a].id = ids[b]; } else { i.removed_constraints[a - na].constraint.as_mut().unwrap().id = ids[b]; }
+                    names.push("duplicate constraint id (active/removed, any pair)"); vfail = true; tfail = Some(true);
+                }
+                2 => { let bad = f_of(F::Linear(lin(&[(999, 1.0)], 0.0)));
+                       let na = i.constraints.len(); let nr = i.removed_constraints.len();
+                       match r.below(3) { 0 => { i.objective = Some(bad); } 1 if na > 0 => { let k = r.below(na); i.constraints[k].function = Some(bad); } 2 if nr > 0 => { let k = r.below(nr); i.removed_constraints[k].constraint.as_mut().unwrap().function = Some(bad); } _ => { i.objective = Some(bad); } }
+                       names.push("undefined variable id used"); vfail = true; if tfail == Some(false) { tfail = None; } }
+                3 => { i.sense = 0; names.push("sense unspecified"); tfail = Some(true); }
+                4 => { i.objective = None; names.push("objective missing"); tfail = Some(true); }
+                5 if !i.constraints.is_empty() => { let k = r.below(i.constraints.len()); i.constraints[k].function = None; names.push("constraint function missing"); tfail = Some(true); }
+                6 if !i.constraints.is_empty() => { let k = r.below(i.constraints.len()); i.constraints[k].equality = 0; names.push("equality unspecified"); tfail = Some(true); }
+                7 => { let k = r.below(i.decision_variables.len()); i.decision_variables[k].kind = 0; names.push("kind unspecified"); tfail = Some(true); }
+                8 => { let k = r.below(i.decision_variables.len()); let mut b = v1::Bound::default(); b.lower = 2.0; b.upper = 1.0; i.decision_variables[k].bound = Some(b); names.push("bound lower > upper"); tfail = Some(true); }
+                9 => { let k = r.below(i.decision_variables.len()); let mut b = v1::Bound::default(); b.lower = f64::NAN; b.upper = 1.0; i.decision_variables[k].bound = Some(b); names.push("bound NaN"); tfail = Some(true); }
+                _ if !i.removed_constraints.is_empty() && nfaults == 1 => { let k = r.below(i.removed_constraints.len()); i.removed_constraints[k].constraint = None; names.push("removed constraint without constraint"); tfail = Some(true); if k < 1000 { /* validate ignores an absent constraint */ } }
+                _ => {}
+            }
+        }
+        // a fault may have been undone by a later one touching the same field (e.g. objective replaced): recompute nothing, but only assert what is still certain
+        let overwritten = names.contains(&"undefined variable id used") && (names.contains(&"objective missing") || names.contains(&"constraint function missing") || names.contains(&"removed constraint without constraint"));
+        if overwritten { continue; }   // one fault replaced the field the other had damaged: no certain expectation
+        if n == 3 { note(|| format!("random: faults {names:?} injected into a valid instance")); }
+        let v = i.validate();
+        if !overwritten && v.is_err() != vfail { fail!(n, "Instance::validate with faults {names:?}: ok={}, expected ok={} ({:?}); variables {:?}, active {:?}, removed {:?}", v.is_ok(), !vfail, v.err().map(|e| e.to_string()), i.decision_variables.iter().map(|v| v.id).collect::<Vec<_>>(), i.constraints.iter().map(|c| c.id).collect::<Vec<_>>(), i.removed_constraints.iter().map(|c| c.constraint.as_ref().map(|c| c.id)).collect::<Vec<_>>()); }
+        let t = ommx::Instance::try_from(i.clone());
+        if let Some(tf) = tfail { if t.is_err() != tf { fail!(n, "TryFrom<v1::Instance> with faults {names:?}: ok={}, expected ok={} ({:?})", t.is_ok(), !tf, t.err().map(|e| e.to_string())); } }
+    }
+    ok(n)
+}
+
+fn c15() -> Outcome {
+    let mut r = Rng::new(15); let mut n = 0;
+    for _ in 0..budget() {
+        n += 1;
+        let mut i = rand_instance(&mut r, 2);
+        if r.chance(1, 2) { i.as_minimization_problem(); }
+        // 1..8 samples, several ids sharing one state, ids in non-ascending insertion order
+        let mut samples = v1::Samples::default();
+        let k = 1 + r.below(8); let mut ids: Vec<u64> = vec![3, 17, 4, 9, 100, 1, 42, 8]; r.shuffle(&mut ids);
+        let mut states: Vec<HashMap<u64, f64>> = vec![];
+        for j in 0..k { let s = if j > 0 && r.chance(1, 3) { states[r.below(j)].clone() } else { rand_instance_state(&mut r, &i) }; states.push(s.clone()); samples.add_sample(ids[j], st(&s)); }
+        let ss = match i.evaluate_samples(&samples) { Ok((ss, _)) => ss, Err(e) => fail!(n, "evaluate_samples failed on in-bound states: {e}") };
+        if n == 3 { note(|| format!("random: best feasible of a sample set with ids {:?} (sense {})", &ids[..k], ss.sense)); }
+        for unrelaxed in [false, true] {
+            let feas = if unrelaxed { ss.feasible_unrelaxed().clone() } else { ss.feasible_relaxed().clone() };
+            let obj = |id: u64| ss.objectives.as_ref().and_then(|o| o.get(id));
+            let cands: Vec<u64> = ids[..k].iter().cloned().filter(|id| feas.get(id) == Some(&true)).collect();
+            let res = if unrelaxed { ss.best_feasible_unrelaxed_id() } else { ss.best_feasible_id() };
+            match res {
+                Err(e) => if !cands.is_empty() { fail!(n, "best feasible (unrelaxed={unrelaxed}) failed ({e}) although samples {cands:?} are feasible") },
+                Ok(id) => {
+                    if !cands.contains(&id) { fail!(n, "best feasible (unrelaxed={unrelaxed}) returned sample {id}, which is not feasible in that sense ({feas:?})"); }
+                    let best = obj(id).unwrap_or(f64::NAN);
+                    for c in &cands { let o = obj(*c).unwrap_or(f64::NAN); let better = if ss.sense == v1::instance::Sense::Maximize as i32 { o > best } else { o < best }; if better { fail!(n, "best feasible (unrelaxed={unrelaxed}, sense {}) returned sample {id} with objective {best}, but feasible sample {c} has objective {o}", ss.sense); } }
+                    let sol = if unrelaxed { ss.best_feasible_unrelaxed() } else { ss.best_feasible() };
+                    match sol { Ok(sol) => { if !close(sol.objective, best) || (unrelaxed && !sol.feasible) || (!unrelaxed && sol.feasible_relaxed == Some(false)) { fail!(n, "the returned best solution (unrelaxed={unrelaxed}) has objective {} feasible {} relaxed {:?}, table says objective {best}", sol.objective, sol.feasible, sol.feasible_relaxed); } }, Err(e) => fail!(n, "best_feasible (unrelaxed={unrelaxed}) failed to assemble sample {id}: {e}") }
+                }
+            }
+        }
+    }
+    ok(n)
+}
+
 fn c09() -> Outcome {
     let mut r = Rng::new(9); let mut n = 0;
     for _ in 0..budget() { for uniform in [false, true] {
@@ -219,6 +298,71 @@ fn c11() -> Outcome {
     ok(n)
 }
 
+
+// generic executable contract of the two slack conversions on constraint id 4 of `i` (all used variables integer/binary with small finite boxes)
+fn check_slack(i0: &Instance, which: usize, limit: u64) -> Result<(), String> {
+    let f = cfun(i0.constraints.iter().find(|c| c.id == 4).unwrap());
+    let used: Vec<u64> = ref_ids(&f).into_iter().collect();
+    let boxes: Vec<(u64, i64, i64)> = used.iter().map(|id| { let v = i0.decision_variables.iter().find(|v| v.id == *id).unwrap(); let (l, u) = v.bound.as_ref().map(|b| (b.lower, b.upper)).unwrap_or((0.0, 1.0)); (*id, l as i64, u as i64) }).collect();
+    let mut lattice: Vec<HashMap<u64, f64>> = vec![HashMap::new()];
+    for (id, l, u) in &boxes { let mut nx = vec![]; for s in &lattice { for v in *l..=*u { let mut t = s.clone(); t.insert(*id, v as f64); nx.push(t); } } lattice = nx; }
+    let fv = |g: &Function, x: &HashMap<u64, f64>, extra: Option<(u64, f64)>| { let mut s = x.clone(); if let Some((k, v)) = extra { s.insert(k, v); } ref_val(g, &s).unwrap() };
+    let lo = lattice.iter().map(|x| fv(&f, x, None)).fold(f64::INFINITY, f64::min);
+    let mut i = i0.clone();
+    let r: Result<Option<f64>, String> = if which == 0 { i.convert_inequality_to_equality_with_integer_slack(4, limit).map(|_| None).map_err(|e| e.to_string()) } else { i.add_integer_slack_to_inequality(4, limit).map_err(|e| e.to_string()) };
+    let what = if which == 0 { "convert_inequality_to_equality_with_integer_slack" } else { "add_integer_slack_to_inequality" };
+    let ctx = format!("{what}(4, {limit}) on {f:?} <= 0, variables {:?}", i0.decision_variables.iter().map(|v| (v.id, v.kind, v.bound.as_ref().map(|b| (b.lower, b.upper)))).collect::<Vec<_>>());
+    match r {
+        Err(e) => {
+            if i != *i0 { return Err(format!("{ctx}: the rejected conversion modified the instance ({e})")); }
+            if lo <= 0.0 && (which == 1 || limit >= 1000) { return Err(format!("{ctx}: rejected although the inequality is satisfiable and the limit generous: {e}")); }
+        }
+        Ok(b) => {
+            if i.constraints.iter().all(|c| c.id != 4) {
+                if let Some(x) = lattice.iter().find(|x| fv(&f, x, None) > 1e-9) { return Err(format!("{ctx}: moved to removed_constraints as always satisfied, but violated at {x:?}")); }
+                if i.removed_constraints.iter().find(|r| r.constraint.as_ref().map(|c| c.id) == Some(4)).and_then(|r| r.constraint.clone()) != i0.constraints.iter().find(|c| c.id == 4).cloned() { return Err(format!("{ctx}: the removed constraint is not the unchanged original")); }
+                if i.decision_variables != i0.decision_variables { return Err(format!("{ctx}: a variable was added although the constraint was removed")); }
+                return Ok(());
+            }
+            // (an inequality that can never hold need not be detected: interval analysis is conservative; the lattice equivalence below still has to hold)
+            let c = i.constraints.iter().find(|c| c.id == 4).unwrap();
+            if i.decision_variables.len() != i0.decision_variables.len() + 1 || i.decision_variables[..i0.decision_variables.len()] != i0.decision_variables[..] { return Err(format!("{ctx}: existing variables changed or not exactly one variable was appended")); }
+            let s = i.decision_variables.last().unwrap();
+            let sb = s.bound.clone().ok_or("slack without bound")?;
+            if s.kind != Kind::Integer as i32 || sb.lower != 0.0 || sb.upper.fract() != 0.0 || i0.decision_variables.iter().any(|v| v.id == s.id) { return Err(format!("{ctx}: slack variable {s:?} is not a fresh integer variable with integer bounds from 0")); }
+            if which == 0 && (sb.upper > limit as f64 || c.equality != Equality::EqualToZero as i32) { return Err(format!("{ctx}: slack range {} above the limit or constraint not an equality", sb.upper)); }
+            if which == 1 && c.equality != Equality::LessThanOrEqualToZero as i32 { return Err(format!("{ctx}: the constraint is no longer an inequality")); }
+            let g = cfun(c);
+            if which == 1 { let x0 = &lattice[0]; let coef = fv(&g, x0, Some((s.id, 1.0))) - fv(&g, x0, Some((s.id, 0.0))); if !close(coef, b.unwrap_or(f64::NAN)) { return Err(format!("{ctx}: reported b={b:?} but the slack coefficient is {coef}")); } }
+            for x in &lattice {
+                let orig = fv(&f, x, None) <= 1e-9;
+                let any = (0..=(sb.upper as i64)).any(|sv| { let v = fv(&g, x, Some((s.id, sv as f64))); if which == 0 { v.abs() < 1e-9 } else { v <= 1e-9 } });
+                if orig != any { return Err(format!("{ctx}: x={x:?} is {} for the inequality but {} for the new constraint {g:?} with slack in [0,{}]", if orig { "feasible" } else { "infeasible" }, if any { "feasible" } else { "infeasible" }, sb.upper)); }
+            }
+        }
+    }
+    Ok(())
+}
+
+fn c13() -> Outcome {
+    let mut r = Rng::new(13); let mut n = 0;
+    for _ in 0..budget() {
+        n += 1;
+        let mut ids = vec![1u64, 2, 3, 9]; r.shuffle(&mut ids);
+        let dvs: Vec<v1::DecisionVariable> = ids.iter().map(|&id| match id { 9 => dv(9, Kind::Continuous, Some((0.0, 1.0))), 2 => dv(2, Kind::Binary, if r.chance(1, 2) { None } else { Some((0.0, 1.0)) }), _ => { let l = r.pick(&[-2.0, 0.0, 1.0]); dv(id, Kind::Integer, Some((l, l + r.pick(&[1.0, 2.0, 3.0])))) } }).collect();
+        // dyadic coefficients only: every value on the lattice is exact, so feasibility at the boundary f(x) = 0 is unambiguous
+        let cf = |r: &mut Rng| r.pick(&[-2.0, -1.0, -0.5, 0.25, 0.5, 1.0, 1.5, 2.0, 3.0, -0.75, 1.25]);
+        let nt = 1 + r.below(3); let terms: Vec<(u64, f64)> = (0..nt).map(|_| (r.pick(&[1u64, 2, 3]), cf(&mut r))).collect();
+        let f = if r.chance(1, 3) { let q: Vec<(u64, u64, f64)> = (0..1 + r.below(2)).map(|_| (r.pick(&[1u64, 2, 3]), r.pick(&[1u64, 2, 3]), r.pick(&[-1.0, 0.5, 1.0, 2.0]))).collect(); let mut seen = BTreeSet::new(); let q: Vec<(u64, u64, f64)> = q.into_iter().filter(|e| seen.insert((e.0, e.1))).collect(); f_of(F::Quadratic(quad(&q, Some(lin(&terms, cf(&mut r) * 2.0))))) } else { f_of(F::Linear(lin(&terms, cf(&mut r) * 2.0))) };
+        let mut i = inst(dvs, f_of(F::Constant(0.0)), vec![con(7, Equality::EqualToZero, f_of(F::Linear(lin(&[(1, 1.0)], 0.0)))), con(4, Equality::LessThanOrEqualToZero, f.clone())]);
+        if r.chance(1, 2) { i.constraints.swap(0, 1); }
+        let which = r.below(2); let limit = r.pick(&[2u64, 5, 1000]);
+        if n == 3 { note(|| format!("random: slack conversion which={which} limit={limit} on {f:?} <= 0")); }
+        if let Err(e) = check_slack(&i, which, limit) { fail!(n, "{e}"); }
+    }
+    ok(n)
+}
+
 fn c14() -> Outcome {
     let mut r = Rng::new(14); let mut n = 0;
     for _ in 0..budget() {
@@ -295,5 +439,5 @@ fn c12() -> Outcome {
 }
 
 pub fn run(prop: &str) -> Option<Outcome> {
-    Some(match prop { "C01" => c01(), "C02" => c02(), "C03" => c03(), "C04" => c04(), "C05" => c05(), "C09" => c09(), "C10" => c10(), "C11" => c11(), "C12" => c12(), "C14" => c14(), "C16" => c16(), _ => return None })
+    Some(match prop { "C01" => c01(), "C02" => c02(), "C03" => c03(), "C04" => c04(), "C05" => c05(), "C08" => c08(), "C09" => c09(), "C10" => c10(), "C11" => c11(), "C12" => c12(), "C13" => c13(), "C14" => c14(), "C15" => c15(), "C16" => c16(), "C17" => crate::bounded3::c17b(), "C19" => crate::bounded3::c19b(), _ => return None })
 }
